@@ -2,6 +2,7 @@ package an
 
 import (
 	"fmt"
+	"go/constant"
 	"go/token"
 	"go/types"
 	"math"
@@ -451,6 +452,43 @@ func (a *Analysis) ruleGates() {
 				}
 			}
 			gateFn, defBlock := tokFn, tok.Block()
+			// strings.Count(s, sep) + 1 with the operands of the strings.Split call is the same
+			// number (sep constant and not empty): a gate on it ahead of the split is a gate on
+			// len(tokens)
+			if calleeName(tok) == "strings.Split" {
+				if sep, ok := tok.Call.Args[1].(*ssa.Const); ok && sep.Value != nil && sep.Value.Kind() == constant.String && constant.StringVal(sep.Value) != "" {
+					for _, c := range callsIn(tokFn) {
+						cc, isCall := c.(*ssa.Call)
+						if !isCall || calleeName(c) != "strings.Count" || cc.Call.Args[0] != tok.Call.Args[0] {
+							continue
+						}
+						s2, ok := cc.Call.Args[1].(*ssa.Const)
+						if !ok || s2.Value == nil || s2.Value.Kind() != constant.String || constant.StringVal(s2.Value) != constant.StringVal(sep.Value) {
+							continue
+						}
+						for _, ref := range *cc.Referrers() {
+							bo, ok := ref.(*ssa.BinOp)
+							if !ok || bo.Op != token.ADD {
+								continue
+							}
+							other := bo.Y
+							if other == ssa.Value(cc) {
+								other = bo.X
+							}
+							if k, ok := intConst(other); ok && k == 1 {
+								subj[bo] = true
+								if a.P.countOfTok == nil {
+									a.P.countOfTok = map[*ssa.Call]bool{}
+								}
+								a.P.countOfTok[cc] = true
+								if cc.Block().Dominates(defBlock) {
+									defBlock = cc.Block()
+								}
+							}
+						}
+					}
+				}
+			}
 			if tokFn != a.CM {
 				a.R.OK("G3", "CheckMnemonic/gate-function", a.P.Pos(tokFn.Pos()), "", "the input is split in %s: the count gate is analysed there, and CheckMnemonic may go on only where that call returned a nil error (S2a gate-before-lookup)", fnKey(tokFn))
 			}
